@@ -76,15 +76,17 @@ def trace_raw_size(o):
             "int64_t": 8, "uint64_t": 8, "float": 4, "double": 8}.get(o.get('raw'), 0)
 
 
-def sweep_script(m, ctxs, states=None):
+def sweep_script(m, ctxs, states=None, bytes_=None):
+    """bytes_: None = all 256 byte values, else the list of byte values to feed in each sweep"""
     states = list(range(len(m['states']))) if states is None else states
+    acmd = 'A' if bytes_ is None else 'a ' + bytes(sorted(set(bytes_))).hex()
     script = ['N', 'S']
     plan = []
     for ci, cmds in enumerate(ctxs):
         for q in states:
             script.extend(cmds)
             script.append('Q %d' % q)
-            script.append('A')
+            script.append(acmd)
             plan.append((q, ci))
     return script, plan
 
@@ -99,7 +101,7 @@ def conv_sweeps(events, plan, m):
         try:
             outs = []
             for o in e['outs']:
-                rc = names[o['rc']] if 0 <= o['rc'] < len(names) else 'rc%d' % o['rc']
+                rc = names[o['rc']] if 0 <= o['rc'] < len(names) else ('TRAP' if o['rc'] == -100 else 'rc%d' % o['rc'])
                 outs.append({'rc': rc, 'adv': o['adv'], 'q': o['q'], 'd': trace.conv_store(o['out'], m),
                              'hooks': trace.conv_hooks(o['hooks'], m)})
             sweeps.append({'q': e['q'], 'd': trace.conv_store(e['out'], m), 'outs': outs, 'idx': e['idx'], 'ctx': ci})
